@@ -211,6 +211,25 @@ def main(tier):
                         r3 = fac(u) / conv
                         if ppb(r3) > ppb(ratio_scalar):
                             ratio_scalar = r3
+                    # the named-unit side of the statement: one unit of the row read in the base unit of its type through every public
+                    # re-expression of a Scalar must be the amount the composition gives
+                    if info.tobase(0.0) == 0.0 and db.GetDefaultCategory(u):
+                        bu_ = db.GetBaseUnit(info.quantity_type)
+                        named = Scalar(1.0, u)
+                        for read in (lambda: named.GetValue(bu_), lambda: named.CreateCopy(unit=bu_).GetValue(),
+                                     lambda: named.CreateCopy(unit=bu_, category=named.GetCategory()).GetValue(),
+                                     lambda: -((-1.0 * named).CreateCopy(unit=bu_).GetValue())):
+                            r6 = read() * fac(bu_) / mag
+                            if ppb(r6) > ppb(ratio_scalar):
+                                ratio_scalar = r6
+                    # a pure power of one unit with a negative amount through the library's exponent conversion
+                    if (len(g["parts"]) == 1 and g["parts"][0]["pre"] == 1 and not isinstance(acc, float) and acc.GetQuantity().IsDerived()
+                            and db.unit_to_unit_info[g["parts"][0]["atom"]].tobase(0.0) == 0.0):
+                        p0 = g["parts"][0]
+                        pbase = db.GetBaseUnit(db.unit_to_unit_info[p0["atom"]].quantity_type)
+                        r7 = fac(u) / -((-1.0 * acc).GetValue([(pbase, p0["exp"])]))
+                        if ppb(r7) > ppb(ratio_scalar):
+                            ratio_scalar = r7
                 except ZeroDivisionError:
                     ratio_scalar = float("nan")
                 kind = "parts"
